@@ -202,6 +202,28 @@ func u32ExprS(fset *token.FileSet, e ast.Expr, subst map[string]string) (string,
 	return "", fmt.Errorf("unsupported uint32 expression %q", printNode(fset, e))
 }
 
+// DefaultSubmitSteps is the step order of submitBlock this driver was written against; used only to
+// keep the crash scenarios and the oracle running when the source can no longer be read (the
+// broken translation itself is reported separately).
+var DefaultSubmitSteps = []Step{{Kind: "NewBatch", Store: "block"}, {Kind: "NewBatch", Store: "state"}, {Kind: "NewBatch", Store: "event"},
+	{Kind: "SaveBlock"}, {Kind: "SaveState"}, {Kind: "SaveEvent"},
+	{Kind: "Commit", Store: "block"}, {Kind: "Commit", Store: "event"}, {Kind: "Commit", Store: "state"}, {Kind: "SetCurrent"}}
+
+// ExtractSubmitSteps reads only submitBlock (independent of the shape of recoverStore). The steps
+// recognised so far are returned together with an error about unrecognised calls.
+func ExtractSubmitSteps(repo string) ([]Step, error) {
+	fset := token.NewFileSet()
+	f, err := parser.ParseFile(fset, filepath.Join(repo, ledgerStoreFile), nil, 0)
+	if err != nil {
+		return nil, err
+	}
+	sub := findMethod(f, "submitBlock")
+	if sub == nil {
+		return nil, fmt.Errorf("submitBlock not found")
+	}
+	return stepsOf(fset, sub.Body)
+}
+
 // ExtractProtocol reads submitBlock and recoverStore.
 func ExtractProtocol(repo string) (*Protocol, error) {
 	fset := token.NewFileSet()
